@@ -197,9 +197,7 @@ Section Generic.
       - destruct (c05_compute O fixdim conv g rule order c05_default_latlon); cbn [fst]; exact Hs.
       - apply c05_read_areas_inv. exact Hs.
       - destruct (c05_jac s); cbn [fst]; [exact Hs|].
-        pose proof (c05_read_areas_inv s Hs) as H.
-        destruct (c05_read_areas O fixdim conv g s) as [s' out]. cbn [fst] in H.
-        destruct out; cbn [fst]; try exact H; destruct (c05_jac s'); exact H.
+        fold dflt. destruct dflt as [r|] eqn:D; cbn [fst]; exact Hs.
     Qed.
 
     Lemma c05_run_inv ops s : c05_cache_inv s -> c05_cache_inv (c05_run O fixdim conv g s ops).
